@@ -320,59 +320,88 @@ def run_check(mod, tier, seed, replay=None):
     else:
         cases = list(mod.gen(tier, rng))
     # witnesses of known findings and the corpus run first
-    by_h = {}
-    for c in cases:
-        by_h.setdefault(c.harness, []).append(c)
-    for hname, cs in by_h.items():
-        if hname not in bins:
-            for c in cs:
-                c.impl = 'no-harness'
-            continue
-        ans = run_harness(bins[hname], [c.req for c in cs])
-        for c, a in zip(cs, ans):
-            c.impl = a
-    mcases = [c for c in cases if c.model]
-    if ok and mcases:
-        try:
+    def execute(cases):
+        by_h = {}
+        for c in cases:
+            by_h.setdefault(c.harness, []).append(c)
+        for hname, cs in by_h.items():
+            if hname not in bins:
+                for c in cs:
+                    c.impl = 'no-harness'
+                continue
+            ans = run_harness(bins[hname], [c.req for c in cs])
+            for c, a in zip(cs, ans):
+                c.impl = a
+        mcases = [c for c in cases if c.model]
+        if ok and mcases:
             mans = run_driver([c.mreq for c in mcases])
             for c, a in zip(mcases, mans):
                 c.mans = a
-        except Exception as e:
-            violations.append(('driver', str(e), {'error': str(e)}, True))
+
+    try:
+        execute(cases)
+    except Exception as e:
+        violations.append(('driver', str(e), {'error': str(e)}, True))
 
     # 4. compare -------------------------------------------------------------------------------
     known = load_known(pid)
     preds = getattr(mod, 'KNOWN_PREDICATES', {})
-    fails_spec = []      # impl != what the property demands
-    corr_breaks = []     # impl != model where nothing says the property fails
-    drift = []           # model != oracle on dom (machinery bug)
-    known_hit = {}
-    n_cmp_model = n_cmp_oracle = 0
-    for c in cases:
-        if c.impl == 'no-harness':
-            continue
-        bad_oracle = bad_model = False
-        if c.oracle is not None:
-            n_cmp_oracle += 1
-            bad_oracle = not c.eq(c.impl, c.oracle)
-        if c.mans is not None:
-            n_cmp_model += 1
-            bad_model = not c.eq(c.impl, c.mans)
-            if c.dom and c.oracle is not None and not c.eq(c.mans, c.oracle):
-                drift.append(c)
-        if bad_oracle or (bad_model and c.dom and c.oracle is None):
-            # the property fails on this input
-            hit = None
-            for e in known:
-                f = preds.get(e.get('predicate'))
-                if f is not None and f(c):
-                    hit = e; break
-            if hit is not None:
-                known_hit.setdefault(hit['id'], []).append(c)
-            else:
-                fails_spec.append(c)
-        elif bad_model:
-            corr_breaks.append(c)
+
+    def classify(cases):
+        fails_spec, corr_breaks, drift, known_hit = [], [], [], {}
+        n_m = n_o = 0
+        for c in cases:
+            if c.impl == 'no-harness':
+                continue
+            bad_oracle = bad_model = False
+            if c.oracle is not None:
+                n_o += 1
+                bad_oracle = not c.eq(c.impl, c.oracle)
+            if c.mans is not None:
+                n_m += 1
+                bad_model = not c.eq(c.impl, c.mans)
+                if c.dom and c.oracle is not None and not c.eq(c.mans, c.oracle):
+                    drift.append(c)
+            if bad_oracle or (bad_model and c.dom and c.oracle is None):
+                hit = None
+                for e in known:
+                    f = preds.get(e.get('predicate'))
+                    if f is not None and f(c):
+                        hit = e; break
+                if hit is not None:
+                    known_hit.setdefault(hit['id'], []).append(c)
+                else:
+                    fails_spec.append(c)
+            elif bad_model:
+                corr_breaks.append(c)
+        return fails_spec, corr_breaks, drift, known_hit, n_m, n_o
+
+    fails_spec, corr_breaks, drift, known_hit, n_cmp_model, n_cmp_oracle = classify(cases)
+
+    # a proof obligation or the correspondence broke but no input on which the property fails was seen:
+    # widen the search (thorough generator, other seeds) before reporting no-failing-input-found
+    widened = 0
+    broken = bool(violations) or bool(corr_breaks) or bool(drift)
+    if broken and not fails_spec and not replay and bins and os.environ.get('VERIF_NO_WIDEN') != '1':
+        t_w = time.time()
+        for wseed, wtier in [(seed + 1, tier), (seed, 'thorough'), (seed + 2, 'thorough')]:
+            if time.time() - t_w > 240:
+                break
+            try:
+                extra = []
+                for c in mod.gen(wtier, random.Random(wseed)):
+                    extra.append(c)
+                    if len(extra) >= 400000:
+                        break
+                execute(extra)
+            except Exception:
+                break
+            widened += len(extra)
+            f2, _, _, k2, _, _ = classify(extra)
+            if f2:
+                fails_spec = f2
+                notes.append('failing input found by the widened search (tier=%s seed=%d)' % (wtier, wseed))
+                break
 
     def cj(c):
         return {'req': c.req, 'mreq': c.mreq, 'harness': c.harness, 'dom': c.dom, 'oracle': c.oracle, 'model': c.model,
@@ -448,7 +477,7 @@ def run_check(mod, tier, seed, replay=None):
         'partial_statements': getattr(mod, 'PARTIAL', []),
         'exhaustive': bool(getattr(mod, 'EXHAUSTIVE', {}).get(tier, False)),
         'harness': {n: os.path.basename(b) for n, b in bins.items()},
-        'build_s': round(t_build, 2),
+        'build_s': round(t_build, 2), 'widened_search_cases': widened, 'notes': notes,
     }
     if hasattr(mod, 'coverage_extra'):
         cov.update(mod.coverage_extra(cases, tier) or {})
